@@ -12,7 +12,9 @@
 //! (the generator writes `remove nth=<k>`; the executor resolves it to the id of the k-th active source
 //! and logs the resolved form, so logged cases replay verbatim.)
 //!
-//! `ip` is a small integer key; `ip_of` maps it to a real IPv4/IPv6 address.  Ids are the `ClockId`s
+//! `ip` is an integer key; `ip_of` maps it to a real address: IPv4 hosts, the IPv4-mapped IPv6 form
+//! (`::ffff:a.b.c.d`) of the SAME hosts, IPv6-only hosts, and the unspecified / loop-back corners in all
+//! their forms (see `ip_of`).  The oracle is literal (`SocketAddr` / `IpAddr` equality, like the code).  Ids are the `ClockId`s
 //! renumbered in order of first appearance (`ClockId::new()` is a global counter; the oracle checks
 //! that it never repeats an id).
 //!
@@ -45,24 +47,81 @@ fn runtime() -> &'static tokio::runtime::Runtime {
     })
 }
 
+/// ip keys (opaque to the model: different keys are different addresses, exactly as `SocketAddr`
+/// equality sees them).  The key space puts BOTH textual forms of one IPv4 host next to each other:
+///   h            (h < 1000)   IPv4 10.0.(h>>8).(h&255)
+///   1000 + h                  the IPv4-mapped IPv6 form ::ffff:10.0.(h>>8).(h&255) of the same host
+///   2000 + h                  an IPv6-only host fd00::h
+///   3000 / 3001 / 3002        0.0.0.0 / ::ffff:0.0.0.0 / ::        (unspecified corners)
+///   3003 / 3004 / 3005        127.0.0.1 / ::ffff:127.0.0.1 / ::1   (loopback corners)
+/// The unmodified code compares addresses literally (`SocketAddr` / `IpAddr` equality), so `h` and
+/// `1000 + h` are different addresses for it; any canonicalisation of one form into the other AFTER the
+/// ignore / active filter shows up as a source for an ignored or already active address.
 pub(super) fn ip_of(k: u64) -> IpAddr {
-    if k % 3 == 2 {
-        IpAddr::V6(Ipv6Addr::new(0xfd00, 0, 0, 0, 0, 0, (k >> 16) as u16, k as u16))
-    } else {
-        IpAddr::V4(Ipv4Addr::new(10, (k >> 16) as u8, (k >> 8) as u8, k as u8))
+    let v4 = |h: u64| Ipv4Addr::new(10, 0, (h >> 8) as u8, h as u8);
+    match k {
+        3000 => IpAddr::V4(Ipv4Addr::UNSPECIFIED),
+        3001 => IpAddr::V6(Ipv4Addr::UNSPECIFIED.to_ipv6_mapped()),
+        3002 => IpAddr::V6(Ipv6Addr::UNSPECIFIED),
+        3003 => IpAddr::V4(Ipv4Addr::LOCALHOST),
+        3004 => IpAddr::V6(Ipv4Addr::LOCALHOST.to_ipv6_mapped()),
+        3005 => IpAddr::V6(Ipv6Addr::LOCALHOST),
+        k if k < 1000 => IpAddr::V4(v4(k)),
+        k if k < 2000 => IpAddr::V6(v4(k - 1000).to_ipv6_mapped()),
+        k => IpAddr::V6(Ipv6Addr::new(0xfd00, 0, 0, 0, 0, 0, 0, (k - 2000) as u16)),
     }
 }
 
 pub(super) fn key_of(ip: IpAddr) -> u64 {
-    match ip {
-        IpAddr::V4(a) => {
+    let v4key = |a: Ipv4Addr, base: u64, unspec: u64, lo: u64| {
+        if a == Ipv4Addr::UNSPECIFIED {
+            unspec
+        } else if a == Ipv4Addr::LOCALHOST {
+            lo
+        } else {
             let o = a.octets();
-            ((o[1] as u64) << 16) | ((o[2] as u64) << 8) | o[3] as u64
+            base + (((o[2] as u64) << 8) | o[3] as u64)
         }
+    };
+    match ip {
+        IpAddr::V4(a) => v4key(a, 0, 3000, 3003),
         IpAddr::V6(a) => {
-            let s = a.segments();
-            ((s[6] as u64) << 16) | s[7] as u64
+            if let Some(m) = a.to_ipv4_mapped() {
+                v4key(m, 1000, 3001, 3004)
+            } else if a == Ipv6Addr::UNSPECIFIED {
+                3002
+            } else if a == Ipv6Addr::LOCALHOST {
+                3005
+            } else {
+                2000 + a.segments()[7] as u64
+            }
         }
+    }
+}
+
+/// the other textual form of the same IPv4 host, if the key has one
+fn other_form(k: u64) -> Option<u64> {
+    match k {
+        3000 => Some(3001),
+        3001 => Some(3000),
+        3003 => Some(3004),
+        3004 => Some(3003),
+        k if k < 1000 => Some(k + 1000),
+        k if k < 2000 => Some(k - 1000),
+        _ => None,
+    }
+}
+
+/// a key for host `h` (1-based) in a random form, now and then one of the corner addresses
+fn gen_key(rng: &mut Rng, universe: u64) -> u64 {
+    if rng.chance(1, 14) {
+        return 3000 + rng.below(6);
+    }
+    let h = rng.below(universe) + 1;
+    match rng.below(20) {
+        0..=10 => h,
+        11..=16 => 1000 + h,
+        _ => 2000 + h,
     }
 }
 
@@ -120,6 +179,25 @@ fn corpus(idx: u64) -> Option<Vec<String>> {
         ],
         // count = 0: never anything
         5 => vec!["cfg count=0 ign=-", "spawn dns=1.123", "remove id=0 reason=N", "spawn dns=2.123"],
+        // both forms of one host: the IPv4-mapped form of an ignored IPv4 address (literally another
+        // address for the code; a canonicalisation after the filter would spawn the ignored one)
+        6 => vec!["cfg count=3 ign=1", "spawn dns=1001.123,2.123,3.123"],
+        // the mapped form of an ACTIVE address arrives in a later answer
+        7 => vec!["cfg count=2 ign=-", "spawn dns=1.123", "spawn dns=1001.123"],
+        // both forms in one answer; the mapped form ignored, the plain one not; v6-only host
+        8 => vec![
+            "cfg count=4 ign=1002,2003",
+            "spawn dns=1.123,1001.123,2.123,1002.123,2003.123,2004.123",
+            "remove nth=0 reason=N",
+            "spawn dns=1001.123,1.123",
+        ],
+        // unspecified / loopback corners in all their forms
+        9 => vec![
+            "cfg count=6 ign=3000,3004",
+            "spawn dns=3000.123,3001.123,3002.123,3003.123,3004.123,3005.123",
+            "remove nth=1 reason=U",
+            "spawn dns=3001.123,3003.123,3005.123",
+        ],
         _ => return None,
     };
     Some(v.into_iter().map(String::from).collect())
@@ -145,7 +223,11 @@ fn gen_answer(rng: &mut Rng, universe: u64) -> String {
             v.push(w);
             continue;
         }
-        let ip = rng.below(universe) + 1;
+        // now and then the OTHER form of a host that is already in this answer
+        let ip = match v.last().and_then(|w: &String| w.split('.').next()?.parse::<u64>().ok()).and_then(other_form) {
+            Some(o) if rng.chance(1, 5) => o,
+            _ => gen_key(rng, universe),
+        };
         let port = if rng.chance(1, 12) { 124 } else { 123 };
         v.push(format!("{}.{}", ip, port));
     }
@@ -169,7 +251,7 @@ fn gen_pool_case(rng: &mut Rng, idx: u64, _run: &Run) -> Vec<String> {
     let mut ign: Vec<String> = vec![];
     if rng.chance(1, 2) {
         for _ in 0..rng.usize(1, 3) {
-            ign.push((rng.below(universe) + 1).to_string());
+            ign.push(gen_key(rng, universe).to_string());
         }
     }
     let mut ops = vec![format!("cfg count={} ign={}", count, if ign.is_empty() { "-".to_string() } else { ign.join(",") })];
@@ -260,6 +342,20 @@ fn exec_pool_case(ops: &[String], run: &mut Run) {
                     }
                     if answer.iter().any(|a| active.iter().any(|s| s.addr == *a)) {
                         run.hit("dns-answer-overlaps-active");
+                    }
+                    // the two-forms situations (IPv4 / IPv4-mapped IPv6 of one host)
+                    let other = |a: &SocketAddr| other_form(key_of(a.ip())).map(|k| SocketAddr::new(ip_of(k), a.port()));
+                    if answer.iter().any(|a| other(a).map_or(false, |o| answer.contains(&o))) {
+                        run.hit("dns-answer-with-both-forms-of-a-host");
+                    }
+                    if answer.iter().any(|a| other(a).map_or(false, |o| ignore.contains(&o.ip()) && !ignore.contains(&a.ip()))) {
+                        run.hit("dns-answer-with-other-form-of-ignored");
+                    }
+                    if answer.iter().any(|a| other(a).map_or(false, |o| active.iter().any(|s| s.addr == o))) {
+                        run.hit("dns-answer-with-other-form-of-active");
+                    }
+                    if answer.iter().any(|a| key_of(a.ip()) >= 3000) {
+                        run.hit("dns-answer-with-unspecified-or-loopback");
                     }
                 }
                 let was_complete = pool.is_complete();
@@ -365,7 +461,7 @@ fn entry() {
     match stream.as_str() {
         "c35_pool" => common::drive(
             "c35_pool",
-            "real PoolSpawner, count 0-6, ignore lists, 3-25 ops: try_spawn with scripted DNS answers (duplicates inside an answer, overlaps with active/known/ignored addresses, empty answers, resolver errors) interleaved with removals of the k-th active / arbitrary ids for every reason; design-time witnesses first; non-trivial = a source was spawned after an active one was removed; distinct by spawn-count/removal signature",
+            "real PoolSpawner, count 0-6, ignore lists, 3-25 ops; addresses are IPv4 hosts, the IPv4-mapped IPv6 form of the same hosts, IPv6-only hosts and the unspecified/loopback corners (both forms of one host regularly meet in answers, ignore lists and active sources); try_spawn with scripted DNS answers (duplicates inside an answer, overlaps with active/known/ignored addresses, empty answers, resolver errors) interleaved with removals of the k-th active / arbitrary ids for every reason; design-time witnesses first; non-trivial = a source was spawned after an active one was removed; distinct by spawn-count/removal signature",
             gen_pool_case,
             exec_pool_case,
         ),
